@@ -55,6 +55,9 @@ impl BigInt {
     pub fn abs(&self) -> (r: BigInt) ensures r@ == (if self@ >= 0 { self@ } else { -self@ }) { unimplemented!() }
     #[verifier::external_body]
     pub fn from_u32(x: u32) -> (r: BigInt) ensures r@ == x as int { unimplemented!() }
+    /// num::ToPrimitive::to_i32
+    #[verifier::external_body]
+    pub fn to_i32(&self) -> (r: Option<i32>) ensures r == (if i32::MIN <= self@ <= i32::MAX { Some(self@ as i32) } else { None::<i32> }) { unimplemented!() }
     /// num::ToPrimitive::to_u8
     #[verifier::external_body]
     pub fn to_u8(&self) -> (r: Option<u8>) ensures r == (if 0 <= self@ <= 255 { Some(self@ as u8) } else { None::<u8> }) { unimplemented!() }
